@@ -1,7 +1,7 @@
 (* C13: the statements of the property assembled from KeepP (decode), KeepViewP (known fields unchanged, uuids),
    KeepSizeP (size), EvoTopP (C08 for the plain build). *)
 From PVGen Require Import Gen GenKeep GenSpec EvoSpec KeepSpec Proofs.GenBase Proofs.EncP Proofs.EvoBase Proofs.EvoP
-  Proofs.EvoErrP Proofs.EvoTopP Proofs.KeepBase Proofs.KeepP Proofs.KeepSizeP Proofs.KeepViewP.
+  Proofs.EvoErrP Proofs.EvoTopP Proofs.KeepBase Proofs.KeepP Proofs.KeepSizeP Proofs.KeepTopP Proofs.KeepViewP Proofs.KeepRetP.
 From PV Require Import Proofs.TablesP Proofs.PrimP Proofs.HeaderP Proofs.RoundtripP.
 Open Scope Z_scope.
 
@@ -37,4 +37,52 @@ Theorem keep_decoded_size : forall S p k c T tv g b,
 Proof.
   intros S p k c T tv g b Hwf Hbin Hwt Hv He.
   exact (keep_size_exact S p k T g b Hbin (viewk_uuids S p k c tv T g Hwf Hwt Hv) He).
+Qed.
+
+(* decode with retention, re-encode, read back with the self-describing reader: the whole trip *)
+Theorem keep_retain_trip : forall S p k T tv g,
+  wf_schema S = true -> no_keep_arg S = true -> p <> PCompact ->
+  wt tv = true -> ttype_of tv = ttype_of_ty S T ->
+  evo_dom S T tv = true -> no_retyped_variant S T tv = true ->
+  forall c, w_pend c = None ->
+  viewk S p k c T tv = Ok g -> wt (reenc S T tv) = true ->
+  exists ss b,
+    write_val p k tv c = Ok (ss, c) /\
+    (forall fuel r rcx, (vsize tv <= fuel)%nat -> idle rcx ->
+       gen_decode_keep S p fuel T (mkS (flat ss ++ r) rcx) = Ok (g, mkS r rcx)) /\
+    enc_ty S p k T g c = Ok (b, c) /\
+    size_ty S p T g c = Ok (Z.of_nat (length (flat b)), c) /\
+    (forall fuel r rcx, (vsize (reenc S T tv) <= fuel)%nat -> idle rcx ->
+       read_val p fuel (ttype_of tv) (mkS (flat b ++ r) rcx) = Ok (reenc S T tv, mkS r rcx)).
+Proof.
+  intros S p k T tv g Hwf Hnka Hbin Hwt Hty Hd Hn c Hc Hv Hwr.
+  destruct (keep_decode S p k T tv Hnka Hbin Hwt Hty Hd Hn c Hc) as (ss & Hw & Hk).
+  destruct (keep_retain S p k c T tv g Hwf Hbin Hc Hn Hv Hwr) as (b & He & Hr).
+  exists ss, b. split; [exact Hw|]. split.
+  { intros fuel r rcx Hf Hi. rewrite (Hk fuel r rcx Hf Hi), Hv. reflexivity. }
+  split; [exact He|]. split; [|exact Hr].
+  exact (size_keep_all S p Hbin k g (viewk_uuids S p k c tv T g Hwf Hwt Hv) T c b c He).
+Qed.
+
+(* non-vacuity: the reader / message of KeepTopP.keep_decode_nonvacuous, all the way round *)
+Example keep_retain_nonvacuous :
+  reenc Rk (TyRef 0) tvk =
+    VStruct [ (1, VI32 7); (3, VStruct [(1, VBool true); (8, VDouble 0)]); (5, VStruct [(4, VList TI8 [VI8 1])]);
+              (9, VBinary [x61; x62]); (2, VI64 5) ] /\
+  forall p, p <> PCompact -> exists g ss b,
+    viewk Rk p BContig w0 (TyRef 0) tvk = Ok g /\
+    write_val p BContig tvk w0 = Ok (ss, w0) /\
+    gen_decode_keep Rk p 40 (TyRef 0) (mkS (flat ss) r0) = Ok (g, mkS [] r0) /\
+    enc_ty Rk p BContig (TyRef 0) g w0 = Ok (b, w0) /\
+    read_val p 40 TStruct (mkS (flat b) r0) = Ok (reenc Rk (TyRef 0) tvk, mkS [] r0).
+Proof.
+  split; [vm_compute; reflexivity|]. intros p Hp.
+  assert (Hv : exists g, viewk Rk p BContig w0 (TyRef 0) tvk = Ok g) by (destruct p; try congruence; eexists; vm_compute; reflexivity).
+  destruct Hv as (g & Hv).
+  destruct (keep_retain_trip Rk p BContig (TyRef 0) tvk g eq_refl eq_refl Hp eq_refl eq_refl eq_refl eq_refl w0 eq_refl Hv eq_refl)
+    as (ss & b & Hw & Hd & He & _ & Hr).
+  exists g, ss, b. split; [exact Hv|]. split; [exact Hw|]. split.
+  { specialize (Hd 40%nat [] r0 ltac:(vm_compute; lia) idle_r0). rewrite app_nil_r in Hd. exact Hd. }
+  split; [exact He|].
+  specialize (Hr 40%nat [] r0 ltac:(vm_compute; lia) idle_r0). rewrite app_nil_r in Hr. exact Hr.
 Qed.
